@@ -93,7 +93,13 @@ class _RawMixin:
     # per-direction algorithm lists: {'enc'|'mac'|'cmp': ([c->s names], [s->c names])}
     asym = None
 
+    _last_kex_pkt = None
+
     def send_packet(self, pkttype, *args, **kw):
+        if 30 <= pkttype <= 49:
+            # remembered so that a test can REPEAT our own genuine key
+            # exchange message (cleartext_inject body None)
+            self._last_kex_pkt = (pkttype, b''.join(args))
         if pkttype == 20 and self.asym:
             from asyncssh.packet import SSHPacket, NameList, Byte
             body = b''.join(args)
@@ -138,6 +144,8 @@ class _RawMixin:
         first = not self._session_id
         for t, b in (self.cleartext_inject or {}).get('before_newkeys', ()) \
                 if first else ():
+            if b is None and self._last_kex_pkt:
+                t, b = self._last_kex_pkt
             self._force_send(t, b)
         super().send_newkeys(k, h)
 
